@@ -132,7 +132,10 @@ def run(chk, drv):
                 wheel_files.add(n.split('.data/scripts/')[1])
             else:
                 wheel_files.add(n)
-        unpacked = os.path.join(scratch, 'unpacked')
+        # where an installed copy really lives: a site-packages directory below a versioned python directory (dots in the path), in an
+        # environment whose name has a blank and a dash
+        unpacked = os.path.join(scratch, 'my env-1', 'lib', 'python3.12', 'site-packages')
+        os.makedirs(unpacked)
         z.extractall(unpacked)
         # ---- completeness (implementation alone): every needed file is in the wheel
         needed = [f for f in files if f != 'setup.py' and (f.endswith('.py') or ('/scripts/' in f and (f.endswith('.def') or f.endswith('.xml'))))]
